@@ -29,6 +29,8 @@ import (
 	"strings"
 	"time"
 
+	gojson "github.com/goccy/go-json"
+
 	"git.metabarcoding.org/obitools/obitools4/obitools4/pkg/obichunk"
 	"git.metabarcoding.org/obitools/obitools4/obitools4/pkg/obiformats"
 	"git.metabarcoding.org/obitools/obitools4/obitools4/pkg/obiiter"
@@ -39,7 +41,17 @@ import (
 
 type c06 struct{}
 
-func init() { props["C06"] = c06{} }
+func init() {
+	props["C06"] = c06{}
+	// goccy/go-json compiles and caches its decoder for a type at first use without synchronisation (build
+	// without -race: `cachedDecoder[index] = dec`); the header-parsing workers of a reader all start with that
+	// first use, and about once in 10^4 process starts one of them sees a half-published decoder and dies with
+	// a nil dereference in internal/decoder/map.go.  That is a defect of the external library at process start
+	// (every disk case is a fresh child process here), not of dereplication: the decoder is warmed up once,
+	// single-threaded, before any case runs.
+	a := obiseq.Annotation{}
+	_ = gojson.Unmarshal([]byte(`{"a":1,"b":"x","c":{"d":2}}`), &a)
+}
 
 type c06Attr struct {
 	key   string
